@@ -147,6 +147,13 @@ class Registry:
         self.types.declare(name, t)
         return t
 
+    def dictshape(self, name, required=None, optional=None):
+        """dict-shaped record (TDRec): a z3-encodable dict with fixed possible keys; `optional` keys may be absent"""
+        t = TDRec(name, {k: self.types.parse(v) for k, v in (required or {}).items()},
+                  {k: self.types.parse(v) for k, v in (optional or {}).items()})
+        self.types.declare(name, t)
+        return t
+
     def optobj(self, name, inner):
         t = TOptObj(self.types.parse(inner))
         self.types.declare(name, t)
